@@ -28,4 +28,4 @@ Deliverables, all under {out}/ :
 2. demo.py     - a small self-contained program (run with PYTHONPATH set to a checkout) that exits 0 on the unchanged code and exits non-zero (assertion failure with a clear message) with your change, demonstrating the property violation through the package's public behaviour;
 3. meta.json   - {{"summary": "<what the change does, file and function>", "needs_to_manifest": "<what specific input/sequence is needed>", "tests_run": "<the commands you ran and their results>"}}.
 
-You must verify yourself: (a) demo.py exits 0 on the clean worktree (`git -C {wt} stash` or run before editing), (b) exits non-zero with the change, (c) the unit tests behave the same with and without the change: `cd {wt} && HOME={out}/home MPLBACKEND=Agg PYTHONPATH={wt} /venv/bin/python -m pytest -q -p no:cacheprovider --timeout=900 --continue-on-collection-errors tests/unit` (takes 5-8 minutes; baseline on the clean tree: 147 passed, 5 failed, 1 collection error - the same tests must pass/fail with your change). Leave the change applied in the worktree when you finish. Final message: a short summary of the change and the results of (a), (b), (c).""")
+You must verify yourself: (a) demo.py exits 0 on the clean worktree (run it before editing, or against an export made with `git -C {wt} archive HEAD | tar -x -C <dir>`; NEVER use `git stash`: the stash is shared by all worktrees of the repository and other agents work concurrently), (b) exits non-zero with the change, (c) the unit tests behave the same with and without the change: `cd {wt} && HOME={out}/home MPLBACKEND=Agg PYTHONPATH={wt} /venv/bin/python -m pytest -q -p no:cacheprovider --timeout=900 --continue-on-collection-errors tests/unit` (takes 5-8 minutes; baseline on the clean tree: 147 passed, 5 failed, 1 collection error - the same tests must pass/fail with your change). Leave the change applied in the worktree when you finish. Final message: a short summary of the change and the results of (a), (b), (c).""")
